@@ -9,6 +9,7 @@ import (
 	"gopkg.in/yaml.v3"
 
 	pipeline "github.com/buildkite/go-pipeline"
+	"github.com/buildkite/go-pipeline/warning"
 	"verifharness/sx"
 )
 
@@ -65,9 +66,21 @@ func c17one(s string, want string, form string) {
 	}
 	// a plugin that arrives through the parser keeps its source as written (what FullSource then sees)
 	if c17parseN%23 == 0 && strings.ToValidUTF8(s, "\uFFFD") == s && s != "" {
-		if doc, err := json.Marshal(map[string]any{"steps": []any{map[string]any{"command": "c", "plugins": []any{map[string]any{s: nil}}}}}); err == nil {
-			if p, perr := pipeline.Parse(strings.NewReader(string(doc))); perr == nil {
-				if cs, ok := p.Steps[0].(*pipeline.CommandStep); ok && len(cs.Plugins) == 1 {
+		stepDoc := map[string]any{"command": "c", "plugins": []any{map[string]any{s: nil}}}
+		switch (c17parseN / 23) % 3 {
+		case 1:
+			stepDoc = map[string]any{"plugins": []any{map[string]any{s: nil}}} // a step that has only plugins
+		case 2:
+			stepDoc = map[string]any{"plugins": map[string]any{s: map[string]any{"k": "v"}}} // ... in the legacy mapping form
+		}
+		if doc, err := json.Marshal(map[string]any{"steps": []any{stepDoc}}); err == nil {
+			if p, perr := pipeline.Parse(strings.NewReader(string(doc))); perr == nil || warning.Is(perr) {
+				cs, ok := p.Steps[0].(*pipeline.CommandStep)
+				if !ok {
+					oracleFail("C17", "parsed-source", c, fmt.Sprintf("the step %s parses to %T, not to a command step with that plugin", doc, p.Steps[0]))
+					return
+				}
+				if ok && len(cs.Plugins) == 1 {
 					if cs.Plugins[0].Source != s || cs.Plugins[0].FullSource() != got {
 						oracleFail("C17", "parsed-source", c, fmt.Sprintf("parsed plugin has Source %q / FullSource %q; written %q, FullSource of that %q", cs.Plugins[0].Source, cs.Plugins[0].FullSource(), s, got))
 						return
@@ -83,7 +96,8 @@ func c17one(s string, want string, form string) {
 		var probe yaml.Node
 		if yaml.Unmarshal([]byte(s+": x\n"), &probe) == nil && len(probe.Content) == 1 && probe.Content[0].Kind == yaml.MappingNode && len(probe.Content[0].Content) == 2 {
 			if tag := probe.Content[0].Content[0].ShortTag(); (tag == "!!str" || tag == "!!timestamp") && probe.Content[0].Content[0].Value == s {
-				for fi, doc := range []string{"steps:\n- command: c\n  plugins:\n  - " + s + ": {k: v}\n", "steps:\n- command: c\n  plugins:\n    " + s + ": ~\n"} {
+				for fi, doc := range []string{"steps:\n- command: c\n  plugins:\n  - " + s + ": {k: v}\n", "steps:\n- command: c\n  plugins:\n    " + s + ": ~\n",
+					"steps:\n- plugins:\n  - " + s + ": {k: v}\n", "steps:\n- label: only plugins\n  plugins:\n    " + s + ": ~\n"} {
 					p, perr := pipeline.Parse(strings.NewReader(doc))
 					if perr != nil {
 						oracleFail("C17", "yaml-source-rejected", c, fmt.Sprintf("Parse rejects %q: %v", doc, perr))
